@@ -17,11 +17,11 @@ CLAUSES = {
 }
 BOUNDS = {
     "quick": "global 7x6 rho grid, N=2 levels (N=3 on one subgrid), legal subgrids {full, [1,6,1,5], [2,6,1,4], [1,5,2,5]}, 1 particle anywhere in the valid region incl. cell edges, any depth; all node values, masks, level depths, scale factors symbolic",
-    "thorough": "also N=3 and N=1 levels, 2 particles, subgrid given with negative indices",
+    "thorough": "N = 2, 3, 4 levels, subgrid given with negative indices",
 }
 ASSUMES = ["level depths of every column strictly increasing and negative (ROMS layout; C12 derives them)", "add_offset = 0 for u, v as the source documents",
            "velocity equality implies the weights: the result is linear in the symbolic node values, so equality for all node values fixes every weight (convexity follows from the oracle's explicit weights in [0,1])"]
-OUTSIDE = "float32 storage rounding and np.float32 casts; positions outside the valid region (RK stage positions are C17)"
+OUTSIDE = "a single s-level (known finding recorded under C12); float32 storage rounding and np.float32 casts; positions outside the valid region (RK stage positions are C17)"
 DT = 600
 L, M = 7, 6
 
@@ -30,7 +30,7 @@ def scenarios(tier):
     q = tier == "quick"
     subs = [None, [1, 6, 1, 5], [2, 6, 1, 4], [1, 5, 2, 5]] + ([] if q else [[-6, -1, 1, -1], [3, 6, 2, 5]])
     out = []
-    for N in ((2,) if q else (1, 2, 3)):
+    for N in ((2,) if q else (2, 3, 4)):  # N = 1 is the recorded C12 finding (no bracketing pair exists)
         for sg in subs:
             out.append(dict(name=f"interp-N{N}-sub{'full' if sg is None else '_'.join(map(str, sg))}", fn="interp", params=dict(N=N, sub=sg, packed=False), cost=20))
     if q:
